@@ -14,7 +14,7 @@ def workload(tier, seed, scale=1.0):
     rnd = rng_for(seed, 'C19', tier)
     quick = tier == 'quick'
     cmds = [cmd_ident(), cmd_signops()]
-    mags = [0, 1, 2, M64, 1 << 64, (1 << 64) + 1, (1 << 128) - 1] + [rand_digits(rnd, n) for n in (1, 2, 3, 5, 8, 20, 40)]
+    mags = [0, 1, 2, M64, 1 << 64, (1 << 64) + 1, (1 << 128) - 1, 1 << 63, 1 << 127] + [rand_digits(rnd, n, k) for n in (1, 2, 3, 5, 8, 20, 40) for k in ((0,) if quick else (0, 1, 2, 4))]
     for m in mags:
         for s in (1, -1):
             cmds.append(cmd_signs(s * m, cell=('signs', s if m else 0, min(ndig(m), 6))))
